@@ -32,6 +32,7 @@ def run(ctx, rep):
     from props import _hashkeys
     _hashkeys.run(F, rep)
     fresh_results(F, rep)
+    index_dispatch(F, rep)
     if _casts is not None:
         _casts.run_c13(F, rep)
 
@@ -266,3 +267,72 @@ def fresh_results(F, rep):
         rep.ob("C13.fresh-result", "%s::finish returns its own result buffer, never the traversed list" % m.group(1), "violated" if bad else ("ok" if good else "undecided"),
                "; ".join(bad) if bad else "%d return site(s)" % good, f.span, fn=f.path, key="C13.fresh-result|%s::finish" % m.group(1))
     rep.floor("C13.fresh-result container-returning operations judged", n, 4)
+
+
+def index_dispatch(F, rep):
+    """`x[i]` compiles to a map lookup or to a list access depending on a flag Parser::list_index computes from the type of x (Index.origin_is_map).
+    The flag must say `map` exactly when a value of that type is a map at run time -- also when the type is wrapped (a variable captured by a
+    closure has type CallbackVariable(T)).  The computation is evaluated abstractly for each container type."""
+    import absint
+    from absint import Interp, Opaque, Int, Variant
+    from props import _hashkeys
+    li = None
+    for f in F.crates["compiler"].fns:
+        if f.path.endswith("<impl compiler::parser::Parser>::list_index"):
+            li = f
+    if li is None:
+        raise AnchorMissing("Parser::list_index")
+    ia = F.adt("compiler::ast::list::Index")
+    if ia is None:
+        raise AnchorMissing("compiler::ast::list::Index")
+    fnames = [x["name"] for x in ia["variants"][0]["fields"]]
+    if "origin_is_map" not in fnames:
+        raise AnchorMissing("Index.origin_is_map")
+    k = fnames.index("origin_is_map")
+    flag = None
+    for bi, si, d, rv, s_ in li.assigns():
+        if "agg" in rv and rv["agg"].get("adt") == "compiler::ast::list::Index" and len(rv["ops"]) > k:
+            flag = mir.op_local(rv["ops"][k])
+    for _ in range(4):
+        src = [mir.op_local(rv["use"]) for bb_, si, d, rv, _s in li.assigns() if d.get("l") == flag and not d.get("p") and "use" in rv and mir.op_local(rv["use"]) is not None]
+        if len(src) == 1:
+            flag = src[0]
+        else:
+            break
+    if flag is None:
+        raise AnchorMissing("origin_is_map operand of Index { .. }")
+    ty_param = [i for i in range(1, li.argc + 1) if li.locals[i].strip().startswith("compiler::ast::r#type::TypeLayout")]
+    if not ty_param:
+        raise AnchorMissing("TypeLayout parameter of Parser::list_index")
+    T = _hashkeys.Types(F)
+    universe = ["Map", ("Cb", "Map"), ("Open", "Int"), ("Cb", ("Open", "Int")), ("Mixed", ["Int", "Str"]), "Str", ("Cb", "Str"), ("Open", "Map")]
+
+    def is_map_at_runtime(spec):
+        if spec == "Map":
+            return True
+        if isinstance(spec, tuple) and spec[0] in ("Cb", "Alias"):
+            return is_map_at_runtime(spec[1])
+        return False
+    bad, undec, rows = [], [], []
+    for spec in universe:
+        def stop(fn_, bb, p, _l=flag):
+            fr = p.frames.get(p.stack[-1][0], {})
+            if fn_ is li and isinstance(fr.get(_l), Int):
+                return fr[_l]
+            return None
+        it = Interp(F, models=dict(absint.DEFAULT_MODELS), max_depth=6, max_paths=64, stop_at=stop)
+        args = [T.build(spec) if i in ty_param else Opaque("arg%d" % i) for i in range(1, li.argc + 1)]
+        outs = it.run(li, args)
+        got = {bool(o.value.v) if (o.kind == "stop" and isinstance(o.value, Int)) else None for o in outs}
+        want = is_map_at_runtime(spec)
+        rows.append("%s->%s" % (_hashkeys.show(spec), sorted(got, key=str)))
+        if got == {want}:
+            continue
+        if None in got or not got or it.exhausted:
+            undec.append(_hashkeys.show(spec))
+        else:
+            bad.append("`%s` is indexed as a %s" % (_hashkeys.show(spec), "map" if not want else "list"))
+    rep.ob("C13.index-dispatch", "Parser::list_index selects the map lookup exactly for types whose values are maps (also behind a capture wrapper)",
+           "violated" if bad else ("undecided" if undec else "ok"), "; ".join(bad) or ("not evaluated: %s" % undec if undec else " ".join(rows)), li.span, fn=li.path,
+           key="C13.index-dispatch|origin_is_map")
+    rep.floor("C13.index-dispatch container types evaluated", len(universe) - len(undec), 6)
